@@ -12,18 +12,18 @@ def R.st {α : Type} : R α → St
   | .crash s => s
 
 section
-variable {cfg : Config} {E : List Nat → Prop} {c : Nat}
+variable {cfg : Config} {E : List Nat → Prop} {c : Nat} {N : List Nat → Prop}
 
 /-! ### primitive calls -/
 
-theorem steps_tick (s : St) : FsSteps cfg E c s s.tick :=
+theorem steps_tick (s : St) : FsSteps cfg E c N s s.tick :=
   .single (.idle rfl rfl id)
 
-theorem steps_crashed (s : St) (lose : List Nat) (d : Bool) : FsSteps cfg E c s (s.crashed lose d) :=
+theorem steps_crashed (s : St) (lose : List Nat) (d : Bool) : FsSteps cfg E c N s (s.crashed lose d) :=
   .single (.crash lose d rfl rfl rfl)
 
 theorem simpleOp_steps {α : Type} (plan : Nat → Fault) (s : St) (act : St → R α)
-    (hact : FsSteps cfg E c s.tick (act s.tick).st) : FsSteps cfg E c s (simpleOp plan s act).st := by
+    (hact : FsSteps cfg E c N s.tick (act s.tick).st) : FsSteps cfg E c N s (simpleOp plan s act).st := by
   unfold simpleOp
   split
   · exact (steps_tick s).trans hact
@@ -31,39 +31,39 @@ theorem simpleOp_steps {α : Type} (plan : Nat → Fault) (s : St) (act : St →
   · exact steps_tick s
   · exact steps_crashed s _ _
 
-theorem createDirAll_steps (plan : Nat → Fault) (s : St) : FsSteps cfg E c s (createDirAll plan s).st :=
+theorem createDirAll_steps (plan : Nat → Fault) (s : St) : FsSteps cfg E c N s (createDirAll plan s).st :=
   simpleOp_steps plan s _ (.refl _)
 
-theorem readDir_steps (plan : Nat → Fault) (s : St) : FsSteps cfg E c s (readDir plan s).st :=
+theorem readDir_steps (plan : Nat → Fault) (s : St) : FsSteps cfg E c N s (readDir plan s).st :=
   simpleOp_steps plan s _ (.refl _)
 
-theorem flushFile_steps (plan : Nat → Fault) (s : St) : FsSteps cfg E c s (flushFile plan s).st :=
+theorem flushFile_steps (plan : Nat → Fault) (s : St) : FsSteps cfg E c N s (flushFile plan s).st :=
   simpleOp_steps plan s _ (.refl _)
 
-theorem fileLen_steps (plan : Nat → Fault) (n : List Nat) (s : St) : FsSteps cfg E c s (fileLen plan n s).st := by
+theorem fileLen_steps (plan : Nat → Fault) (n : List Nat) (s : St) : FsSteps cfg E c N s (fileLen plan n s).st := by
   refine simpleOp_steps plan s _ ?_
   split <;> exact .refl _
 
-theorem openNew_steps (plan : Nat → Fault) {n : List Nat} (hm : Mem cfg n) (s : St) :
-    FsSteps cfg E c s (openNew plan n s).st := by
+theorem openNew_steps (plan : Nat → Fault) {n : List Nat} (hm : Mem cfg n) (hN : N n) (s : St) :
+    FsSteps cfg E c N s (openNew plan n s).st := by
   refine simpleOp_steps plan s _ ?_
   split
   · exact .refl _
   · rename_i hnone
-    exact .single (.create n hm hnone rfl rfl id)
+    exact .single (.create n hm hN hnone rfl rfl id)
 
-theorem syncParent_steps (plan : Nat → Fault) (s : St) : FsSteps cfg E c s (syncParent plan s).st :=
+theorem syncParent_steps (plan : Nat → Fault) (s : St) : FsSteps cfg E c N s (syncParent plan s).st :=
   simpleOp_steps plan s _ (.single (.syncParent rfl rfl id))
 
 theorem openExisting_steps (plan : Nat → Fault) {n : List Nat} (hm : Mem cfg n) (s : St) :
-    FsSteps cfg E c s (openExisting plan n s).st := by
+    FsSteps cfg E c N s (openExisting plan n s).st := by
   refine simpleOp_steps plan s _ ?_
   split
   · exact .single (.opened n hm rfl rfl id)
   · exact .refl _
 
 theorem syncAll_steps (plan : Nat → Fault) {n : List Nat} (hm : Mem cfg n) (s : St) :
-    FsSteps cfg E c s (syncAll plan n s).st := by
+    FsSteps cfg E c N s (syncAll plan n s).st := by
   refine simpleOp_steps plan s _ ?_
   split
   · rename_i f hget
@@ -71,7 +71,7 @@ theorem syncAll_steps (plan : Nat → Fault) {n : List Nat} (hm : Mem cfg n) (s 
   · exact .refl _
 
 theorem removeFile_steps (plan : Nat → Fault) {n : List Nat} (hm : Mem cfg n) (s : St) :
-    FsSteps cfg E c s (removeFile plan n s).st := by
+    FsSteps cfg E c N s (removeFile plan n s).st := by
   refine simpleOp_steps plan s _ ?_
   split
   · rename_i f hget
@@ -80,7 +80,7 @@ theorem removeFile_steps (plan : Nat → Fault) {n : List Nat} (hm : Mem cfg n) 
 
 /-- Writing the (single-byte) separator. -/
 theorem writeSep_steps (plan : Nat → Fault) {n : List Nat} (hm : Mem cfg n) (s : St) :
-    FsSteps cfg E c s (writeAll plan n [c] s).st := by
+    FsSteps cfg E c N s (writeAll plan n [c] s).st := by
   unfold writeAll
   simp only [List.cons_ne_nil, if_false, List.length_singleton]
   split
@@ -102,7 +102,7 @@ theorem writeSep_steps (plan : Nat → Fault) {n : List Nat} (hm : Mem cfg n) (s
 
 /-- Writing an event buffer after clean content. -/
 theorem writeEvt_steps (plan : Nat → Fault) {n e : List Nat} (hm : Mem cfg n) (he : E e) (s : St)
-    (hclean : CleanAt E c s n) : FsSteps cfg E c s (writeAll plan n e s).st := by
+    (hclean : CleanAt E c s n) : FsSteps cfg E c N s (writeAll plan n e s).st := by
   unfold writeAll
   split
   · exact .refl _
@@ -255,8 +255,8 @@ theorem writeAll_active (plan : Nat → Fault) (n buf : List Nat) {s : St} (h : 
 
 /-! ### listing, retention, opening -/
 
-theorem readSet_steps (plan : Nat → Fault) (s : St) : FsSteps cfg E c s (readSet cfg plan s).st := by
-  have := readDir_steps (cfg := cfg) (E := E) (c := c) plan s
+theorem readSet_steps (plan : Nat → Fault) (s : St) : FsSteps cfg E c N s (readSet cfg plan s).st := by
+  have := readDir_steps (cfg := cfg) (E := E) (c := c) (N := N) plan s
   unfold readSet
   cases h : readDir plan s <;> simp only [h, R.st] at this ⊢ <;> exact this
 
@@ -280,11 +280,11 @@ theorem readSet_mem {plan : Nat → Fault} {s s' : St} {set : List (List Nat)}
   | crash s1 => simp only [hr] at h; cases h
 
 theorem removeAll_steps (plan : Nat → Fault) (vs : List (List Nat)) (hv : ∀ n ∈ vs, Mem cfg n) (s : St) :
-    FsSteps cfg E c s (removeAll plan vs s).st := by
+    FsSteps cfg E c N s (removeAll plan vs s).st := by
   induction vs generalizing s with
   | nil => exact .refl _
   | cons n ns ih =>
-    have h1 := removeFile_steps (cfg := cfg) (E := E) (c := c) plan (hv n (by simp)) s
+    have h1 := removeFile_steps (cfg := cfg) (E := E) (c := c) (N := N) plan (hv n (by simp)) s
     have ih' := fun s => ih (fun m hm => hv m (by simp [hm])) s
     unfold removeAll
     cases h : removeFile plan n s with
@@ -311,25 +311,25 @@ theorem victims_mem {keep : Nat} {set : List (List Nat)} (h : ∀ n ∈ set, Mem
   exact h n (List.mem_of_mem_drop hn)
 
 theorem tryOpenReuse_steps (plan : Nat → Fault) (n : List Nat) (s : St) :
-    FsSteps cfg E c s (tryOpenReuse cfg plan n s).st := by
+    FsSteps cfg E c N s (tryOpenReuse cfg plan n s).st := by
   unfold tryOpenReuse
   split
   · exact .refl _
   · rename_i ts hts
     have hm : Mem cfg n := by simp [Mem, isMember, hts]
-    have h1 := openExisting_steps (cfg := cfg) (E := E) (c := c) plan hm s
+    have h1 := openExisting_steps (cfg := cfg) (E := E) (c := c) (N := N) plan hm s
     cases h : openExisting plan n s with
     | err s1 => simp only [h, R.st] at h1 ⊢; exact h1
     | crash s1 => simp only [h, R.st] at h1 ⊢; exact h1
     | ok u s1 =>
       simp only [h, R.st] at h1 ⊢
-      have h2 := syncParent_steps (cfg := cfg) (E := E) (c := c) plan s1
+      have h2 := syncParent_steps (cfg := cfg) (E := E) (c := c) (N := N) plan s1
       cases h' : syncParent plan s1 with
       | err s2 => simp only [h', R.st] at h2 ⊢; exact h1.trans h2
       | crash s2 => simp only [h', R.st] at h2 ⊢; exact h1.trans h2
       | ok u s2 =>
         simp only [h', R.st] at h2 ⊢
-        have h3 := fileLen_steps (cfg := cfg) (E := E) (c := c) plan n s2
+        have h3 := fileLen_steps (cfg := cfg) (E := E) (c := c) (N := N) plan n s2
         cases h'' : fileLen plan n s2 with
         | err s3 => simp only [h'', R.st] at h3 ⊢; exact (h1.trans h2).trans h3
         | crash s3 => simp only [h'', R.st] at h3 ⊢; exact (h1.trans h2).trans h3
@@ -395,9 +395,9 @@ theorem tryOpenReuse_ok {plan : Nat → Fault} {n : List Nat} {s s' : St} {a : A
           exact ⟨rfl, hm, rfl, hts, f.setDurable, hget2, rfl, rfl⟩
 
 theorem createFile_steps (plan : Nat → Fault) (now : Parts) (id : Nat) {set : List (List Nat)}
-    (hset : ∀ n ∈ set, Mem cfg n) (s : St) : FsSteps cfg E c s (createFile cfg plan now id set s).st := by
+    (hN : N (nameFor cfg.pfx cfg.ext cfg.rollBy now id)) (hset : ∀ n ∈ set, Mem cfg n) (s : St) : FsSteps cfg E c N s (createFile cfg plan now id set s).st := by
   unfold createFile
-  have h0 := removeAll_steps (cfg := cfg) (E := E) (c := c) plan _ (victims_mem (keep := cfg.maxFiles - 1) hset) s
+  have h0 := removeAll_steps (cfg := cfg) (E := E) (c := c) (N := N) plan _ (victims_mem (keep := cfg.maxFiles - 1) hset) s
   cases h : removeAll plan (victims (cfg.maxFiles - 1) set) s with
   | err s1 => simp only [h, R.st] at h0 ⊢; exact h0
   | crash s1 => simp only [h, R.st] at h0 ⊢; exact h0
@@ -406,13 +406,13 @@ theorem createFile_steps (plan : Nat → Fault) (now : Parts) (id : Nat) {set : 
     have hts := memberTs?_nameFor cfg.pfx cfg.ext cfg.rollBy now id
     simp only [hts]
     have hm : Mem cfg (nameFor cfg.pfx cfg.ext cfg.rollBy now id) := by simp [Mem, isMember, hts]
-    have h1 := openNew_steps (cfg := cfg) (E := E) (c := c) plan hm s1
+    have h1 := openNew_steps (cfg := cfg) (E := E) (c := c) (N := N) plan hm hN s1
     cases h' : openNew plan (nameFor cfg.pfx cfg.ext cfg.rollBy now id) s1 with
     | err s2 => simp only [h', R.st] at h1 ⊢; exact h0.trans h1
     | crash s2 => simp only [h', R.st] at h1 ⊢; exact h0.trans h1
     | ok u s2 =>
       simp only [h', R.st] at h1 ⊢
-      have h2 := syncParent_steps (cfg := cfg) (E := E) (c := c) plan s2
+      have h2 := syncParent_steps (cfg := cfg) (E := E) (c := c) (N := N) plan s2
       cases h'' : syncParent plan s2 with
       | err s3 => simp only [h'', R.st] at h2 ⊢; exact (h0.trans h1).trans h2
       | crash s3 => simp only [h'', R.st] at h2 ⊢; exact (h0.trans h1).trans h2
@@ -475,31 +475,32 @@ theorem createFile_ok {plan : Nat → Fault} {now : Parts} {id : Nat} {set : Lis
 /-! ### choosing the file -/
 
 /-- What the worker may assume about the file it holds: it is a member of the set, exists with a durable
-    directory entry, and unless flagged for recovery its content ends on a record boundary. -/
+    directory entry, its recorded size is the real one, and unless flagged for recovery its content ends on a
+    record boundary. -/
 def ActiveOk (cfg : Config) (E : List Nat → Prop) (c : Nat) (s : St) (a : Active) : Prop :=
-  Mem cfg a.name ∧ (∃ f, fsGet s.fs a.name = some f ∧ f.durable = true) ∧
+  Mem cfg a.name ∧ (∃ f, fsGet s.fs a.name = some f ∧ f.durable = true ∧ a.size = f.content.length) ∧
     (a.needsRecovery = false → CleanAt E c s a.name)
 
 theorem activeOk_of_createFile_ok {plan : Nat → Fault} {now : Parts} {id : Nat} {set : List (List Nat)} {s s' : St}
     {a : Active} (h : createFile cfg plan now id set s = .ok a s') : ActiveOk cfg E c s' a := by
   obtain ⟨ha, hget⟩ := createFile_ok h
-  refine ⟨?_, ⟨_, hget, rfl⟩, ?_⟩
+  refine ⟨?_, ⟨_, hget, rfl, by subst ha; rfl⟩, ?_⟩
   · subst ha; simp [Mem, isMember, memberTs?_nameFor]
   · intro _ f hf
     rw [hget] at hf; cases hf
     exact .nil
 
 theorem openOrCreate_spec (plan : Nat → Fault) (now : Parts) (id : Nat) (b : Batch) {set : List (List Nat)}
-    (hset : ∀ n ∈ set, Mem cfg n) {s : St} (hs : s.active = none) :
-    FsSteps cfg E c s (openOrCreate cfg plan now id b set s).st ∧
+    (hN : N (nameFor cfg.pfx cfg.ext cfg.rollBy now id)) (hset : ∀ n ∈ set, Mem cfg n) {s : St} (hs : s.active = none) :
+    FsSteps cfg E c N s (openOrCreate cfg plan now id b set s).st ∧
       (openOrCreate cfg plan now id b set s).st.active = none ∧
       ∀ a s', openOrCreate cfg plan now id b set s = .ok a s' → ActiveOk cfg E c s' a := by
   unfold openOrCreate
   split
-  · exact ⟨createFile_steps plan now id hset s, createFile_active plan now id set hs,
+  · exact ⟨createFile_steps plan now id hN hset s, createFile_active plan now id set hs,
       fun a s' h => activeOk_of_createFile_ok h⟩
   · rename_i n _
-    have h1 := tryOpenReuse_steps (cfg := cfg) (E := E) (c := c) plan n s
+    have h1 := tryOpenReuse_steps (cfg := cfg) (E := E) (c := c) (N := N) plan n s
     have h2 := tryOpenReuse_active (cfg := cfg) plan n hs
     cases h : tryOpenReuse cfg plan n s with
     | crash s1 =>
@@ -507,7 +508,7 @@ theorem openOrCreate_spec (plan : Nat → Fault) (now : Parts) (id : Nat) (b : B
       exact ⟨h1, h2, fun a s' h => by cases h⟩
     | err s1 =>
       simp only [h, R.st] at h1 h2 ⊢
-      exact ⟨h1.trans (createFile_steps plan now id hset s1), createFile_active plan now id set h2,
+      exact ⟨h1.trans (createFile_steps plan now id hN hset s1), createFile_active plan now id set h2,
         fun a s' h => activeOk_of_createFile_ok h⟩
     | ok a1 s1 =>
       simp only [h, R.st] at h1 h2
@@ -516,18 +517,18 @@ theorem openOrCreate_spec (plan : Nat → Fault) (now : Parts) (id : Nat) (b : B
         refine ⟨h1, h2, ?_⟩
         intro a s' he
         cases he
-        obtain ⟨hn, hm, hnr, _, f, hf, hd, _⟩ := tryOpenReuse_ok h
-        refine ⟨by rw [hn]; exact hm, ⟨f, by rw [hn]; exact hf, hd⟩, ?_⟩
+        obtain ⟨hn, hm, hnr, _, f, hf, hd, hsz⟩ := tryOpenReuse_ok h
+        refine ⟨by rw [hn]; exact hm, ⟨f, by rw [hn]; exact hf, hd, hsz⟩, ?_⟩
         intro hfalse; rw [hnr] at hfalse; cases hfalse
       · simp only [hfit]
-        exact ⟨h1.trans (createFile_steps plan now id hset s1), createFile_active plan now id set h2,
+        exact ⟨h1.trans (createFile_steps plan now id hN hset s1), createFile_active plan now id set h2,
           fun a s' h => activeOk_of_createFile_ok h⟩
 
 theorem acquire_spec (plan : Nat → Fault) (now : Parts) (id : Nat) (b : Batch) (s : St)
-    (hact : ∀ a, s.active = some a → ActiveOk cfg E c s a) :
-    FsSteps cfg E c s (acquire cfg plan now id b s).st ∧ (acquire cfg plan now id b s).st.active = none ∧
+    (hN : N (nameFor cfg.pfx cfg.ext cfg.rollBy now id)) (hact : ∀ a, s.active = some a → ActiveOk cfg E c s a) :
+    FsSteps cfg E c N s (acquire cfg plan now id b s).st ∧ (acquire cfg plan now id b s).st.active = none ∧
       ∀ a s', acquire cfg plan now id b s = .ok a s' → ActiveOk cfg E c s' a := by
-  have h0 : FsSteps cfg E c s { s with active := none } := .single (.idle rfl rfl fun h => h)
+  have h0 : FsSteps cfg E c N s { s with active := none } := .single (.idle rfl rfl fun h => h)
   unfold acquire
   cases hs : s.active with
   | some a0 =>
@@ -539,37 +540,37 @@ theorem acquire_spec (plan : Nat → Fault) (now : Parts) (id : Nat) (b : Batch)
       cases he
       exact hact a0 hs
     · simp only [hfit]
-      have h1 := readSet_steps (cfg := cfg) (E := E) (c := c) plan { s with active := none }
+      have h1 := readSet_steps (cfg := cfg) (E := E) (c := c) (N := N) plan { s with active := none }
       have h2 := readSet_active (cfg := cfg) plan (s := { s with active := none }) rfl
       cases h : readSet cfg plan { s with active := none } with
       | err s1 => simp only [h, R.st] at h1 h2 ⊢; exact ⟨h0.trans h1, h2, fun a s' h => by cases h⟩
       | crash s1 => simp only [h, R.st] at h1 h2 ⊢; exact ⟨h0.trans h1, h2, fun a s' h => by cases h⟩
       | ok set s1 =>
         simp only [h, R.st] at h1 h2 ⊢
-        exact ⟨(h0.trans h1).trans (createFile_steps plan now id (readSet_mem h) s1),
+        exact ⟨(h0.trans h1).trans (createFile_steps plan now id hN (readSet_mem h) s1),
           createFile_active plan now id set h2, fun a s' h => activeOk_of_createFile_ok h⟩
   | none =>
     simp only []
-    have h1 := createDirAll_steps (cfg := cfg) (E := E) (c := c) plan { s with active := none }
+    have h1 := createDirAll_steps (cfg := cfg) (E := E) (c := c) (N := N) plan { s with active := none }
     have h2 := createDirAll_active plan (s := { s with active := none }) rfl
     cases h : createDirAll plan { s with active := none } with
     | err s1 => simp only [h, R.st] at h1 h2 ⊢; exact ⟨h0.trans h1, h2, fun a s' h => by cases h⟩
     | crash s1 => simp only [h, R.st] at h1 h2 ⊢; exact ⟨h0.trans h1, h2, fun a s' h => by cases h⟩
     | ok u s1 =>
       simp only [h, R.st] at h1 h2 ⊢
-      have h3 := readSet_steps (cfg := cfg) (E := E) (c := c) plan s1
+      have h3 := readSet_steps (cfg := cfg) (E := E) (c := c) (N := N) plan s1
       have h4 := readSet_active (cfg := cfg) plan h2
       cases h' : readSet cfg plan s1 with
       | err s2 => simp only [h', R.st] at h3 h4 ⊢; exact ⟨(h0.trans h1).trans h3, h4, fun a s' h => by cases h⟩
       | crash s2 => simp only [h', R.st] at h3 h4 ⊢; exact ⟨(h0.trans h1).trans h3, h4, fun a s' h => by cases h⟩
       | ok set s2 =>
         simp only [h', R.st] at h3 h4 ⊢
-        obtain ⟨k1, k2, k3⟩ := openOrCreate_spec (cfg := cfg) (E := E) (c := c) plan now id b (readSet_mem h') h4
+        obtain ⟨k1, k2, k3⟩ := openOrCreate_spec (cfg := cfg) (E := E) (c := c) (N := N) plan now id b hN (readSet_mem h') h4
         exact ⟨((h0.trans h1).trans h3).trans k1, k2, k3⟩
 
 /-! ### writing -/
 
-theorem FsSteps.faulted_mono {s s' : St} (h : FsSteps cfg E c s s') : s.faulted = true → s'.faulted = true := by
+theorem FsSteps.faulted_mono {s s' : St} (h : FsSteps cfg E c N s s') : s.faulted = true → s'.faulted = true := by
   induction h with
   | refl => exact fun h => h
   | tail _ hstep ih => exact fun h => hstep.faulted_mono (ih h)
@@ -578,7 +579,8 @@ theorem FsSteps.faulted_mono {s s' : St} (h : FsSteps cfg E c s s') : s.faulted 
 theorem writeEvent_ok {plan : Nat → Fault} {a a' : Active} {e : List Nat} {s s' : St}
     (h : writeEvent cfg plan a e s = .ok a' s') :
     s'.fs = appendBytes s.fs a.name ((if a.needsRecovery then cfg.sep else []) ++ e) ∧ s'.faulted = s.faulted ∧
-      s'.active = s.active ∧ a'.name = a.name ∧ a'.needsRecovery = false ∧ a'.ts = a.ts := by
+      s'.active = s.active ∧ a'.name = a.name ∧ a'.needsRecovery = false ∧ a'.ts = a.ts ∧
+      a'.size = a.size + ((if a.needsRecovery then cfg.sep else []) ++ e).length := by
   unfold writeEvent at h
   by_cases hnr : a.needsRecovery = true
   · simp only [hnr, if_true] at h ⊢
@@ -595,7 +597,7 @@ theorem writeEvent_ok {plan : Nat → Fault} {a a' : Active} {e : List Nat} {s s
         simp only [h2] at h
         obtain ⟨f1, f2, f3⟩ := writeAll_ok h2
         cases h
-        refine ⟨?_, by rw [f2, e2], by rw [f3, e3], rfl, rfl, rfl⟩
+        refine ⟨?_, by rw [f2, e2], by rw [f3, e3], rfl, rfl, rfl, by simp [Nat.add_assoc]⟩
         rw [f1, e1, appendBytes_appendBytes]
   · simp only [hnr, Bool.false_eq_true, if_false, List.nil_append] at h ⊢
     cases h2 : writeAll plan a.name e s with
@@ -605,7 +607,7 @@ theorem writeEvent_ok {plan : Nat → Fault} {a a' : Active} {e : List Nat} {s s
       simp only [h2] at h
       obtain ⟨f1, f2, f3⟩ := writeAll_ok h2
       cases h
-      exact ⟨f1, f2, f3, rfl, rfl, rfl⟩
+      exact ⟨f1, f2, f3, rfl, rfl, rfl, rfl⟩
 
 theorem writeEvent_active (plan : Nat → Fault) (a : Active) (e : List Nat) {s : St} (hs : s.active = none) :
     (writeEvent cfg plan a e s).st.active = none := by
@@ -649,12 +651,12 @@ theorem clean_of_all (hall : ∀ x, E x) (t : Bool) (x : List Nat) : Clean E c t
 
 theorem writeEvent_steps (hsep : SepOk cfg E c) (plan : Nat → Fault) {a : Active} {e : List Nat} {s : St}
     (he : E e) (hg : GoodInv cfg E c s) (ha : ActiveOk cfg E c s a) :
-    FsSteps cfg E c s (writeEvent cfg plan a e s).st := by
+    FsSteps cfg E c N s (writeEvent cfg plan a e s).st := by
   obtain ⟨hm, _, hclean⟩ := ha
   unfold writeEvent
   by_cases hnr : a.needsRecovery = true
   · simp only [hnr, if_true]
-    have h1 : FsSteps cfg E c s (writeAll plan a.name cfg.sep s).st := by
+    have h1 : FsSteps cfg E c N s (writeAll plan a.name cfg.sep s).st := by
       rcases hsep with hsep | hall
       · rw [hsep]; exact writeSep_steps plan hm s
       · exact writeEvt_steps plan hm (hall _) s (fun f _ => clean_of_all hall _ _)
@@ -668,22 +670,23 @@ theorem writeEvent_steps (hsep : SepOk cfg E c) (plan : Nat → Fault) {a : Acti
         rcases hsep with hsep | hall
         · exact cleanAt_after_sep hm hg (by rw [e1, hsep]) e2
         · exact fun f _ => clean_of_all hall _ _
-      have h2 := writeEvt_steps (cfg := cfg) plan hm he s1 hc1
+      have h2 := writeEvt_steps (cfg := cfg) (N := N) plan hm he s1 hc1
       cases h' : writeAll plan a.name e s1 <;> simp only [h', R.st] at h2 ⊢ <;> exact h1.trans h2
   · simp only [hnr, Bool.false_eq_true, if_false]
-    have h2 := writeEvt_steps (cfg := cfg) plan hm he s (hclean (by simpa using hnr))
+    have h2 := writeEvt_steps (cfg := cfg) (N := N) plan hm he s (hclean (by simpa using hnr))
     cases h' : writeAll plan a.name e s <;> simp only [h', R.st] at h2 ⊢ <;> exact h2
 
 /-- After a successful `write_event` the file is still fine and ends on a record boundary. -/
 theorem writeEvent_post (hsep : SepOk cfg E c) {plan : Nat → Fault} {a a' : Active} {e : List Nat} {s s' : St}
     (he : E e) (hg : GoodInv cfg E c s) (ha : ActiveOk cfg E c s a)
     (h : writeEvent cfg plan a e s = .ok a' s') : ActiveOk cfg E c s' a' := by
-  obtain ⟨hfs, hf, _, hn, hnr, _⟩ := writeEvent_ok h
-  obtain ⟨hm, ⟨f, hget, hd⟩, hclean⟩ := ha
+  obtain ⟨hfs, hf, _, hn, hnr, _, hsize⟩ := writeEvent_ok h
+  obtain ⟨hm, ⟨f, hget, hd, hsz⟩, hclean⟩ := ha
   unfold ActiveOk
   rw [hn]
   refine ⟨hm, ⟨{ f with unsynced := f.unsynced ++ ((if a.needsRecovery = true then cfg.sep else []) ++ e) },
-    by rw [hfs]; exact fsGet_appendBytes_same _ hget, hd⟩, ?_⟩
+    by rw [hfs]; exact fsGet_appendBytes_same _ hget, hd, ?_⟩, ?_⟩
+  · rw [hsize, hsz]; simp [File.content, Nat.add_assoc]
   intro _ f' hget'
   rw [hfs, fsGet_appendBytes_same _ hget] at hget'
   cases hget'
@@ -700,7 +703,7 @@ theorem writeEvent_post (hsep : SepOk cfg E c) {plan : Nat → Fault} {a a' : Ac
 theorem writeEvents_spec (hsep : SepOk cfg E c) (plan : Nat → Fault) (evs : List (List Nat)) :
     ∀ (a : Active) (b : Batch) (s : St), (∀ e ∈ evs, E e) → NamesNodup s → GoodInv cfg E c s →
       ActiveOk cfg E c s a →
-      FsSteps cfg E c s (writeEvents cfg plan a b s evs).2.2 ∧
+      FsSteps cfg E c N s (writeEvents cfg plan a b s evs).2.2 ∧
         (s.active = none → (writeEvents cfg plan a b s evs).2.2.active = none) ∧
         (∀ a', (writeEvents cfg plan a b s evs).2.1 = some a' →
           ActiveOk cfg E c (writeEvents cfg plan a b s evs).2.2 a') := by
@@ -712,7 +715,7 @@ theorem writeEvents_spec (hsep : SepOk cfg E c) (plan : Nat → Fault) (evs : Li
   | cons e rest ih =>
     intro a b s hE hn hg ha
     have he : E e := hE e (by simp)
-    have h1 := writeEvent_steps hsep plan he hg ha
+    have h1 := writeEvent_steps (N := N) hsep plan he hg ha
     simp only [writeEvents]
     cases h : writeEvent cfg plan a e s with
     | err s1 =>
@@ -750,9 +753,10 @@ theorem activeOk_of_fs_eq {s s' : St} {a : Active} (hfs : s'.fs = s.fs) (hf : s'
 theorem activeOk_after_syncAll {s s' : St} {a : Active} {f : File} (hget : fsGet s.fs a.name = some f)
     (hfs : s'.fs = fsSet s.fs a.name f.syncedAll) (hf : s'.faulted = s.faulted)
     (h : ActiveOk cfg E c s a) : ActiveOk cfg E c s' a := by
-  obtain ⟨hm, ⟨g, hg, hd⟩, hclean⟩ := h
+  obtain ⟨hm, ⟨g, hg, hd, hsz⟩, hclean⟩ := h
   rw [hget] at hg; cases hg
-  refine ⟨hm, ⟨f.syncedAll, by rw [hfs, fsGet_fsSet_same], hd⟩, fun hnr f' hget' => ?_⟩
+  refine ⟨hm, ⟨f.syncedAll, by rw [hfs, fsGet_fsSet_same], hd, by rw [hsz]; simp [File.content, File.syncedAll]⟩,
+    fun hnr f' hget' => ?_⟩
   rw [hfs, fsGet_fsSet_same] at hget'
   cases hget'
   rw [hf]
@@ -761,10 +765,10 @@ theorem activeOk_after_syncAll {s s' : St} {a : Active} {f : File} (hget : fsGet
 
 /-- `on_batch` is a sequence of filesystem steps, and leaves the worker's assumptions about its file intact. -/
 theorem onBatch_spec (hsep : SepOk cfg E c) (plan : Nat → Fault) (now : Parts) (id : Nat) (b : Batch) (s : St)
-    (hE : ∀ e ∈ b.rest, E e) (hinv : Inv cfg E c s) :
-    FsSteps cfg E c s (onBatch cfg plan now id b s).2 ∧
+    (hN : N (nameFor cfg.pfx cfg.ext cfg.rollBy now id)) (hE : ∀ e ∈ b.rest, E e) (hinv : Inv cfg E c s) :
+    FsSteps cfg E c N s (onBatch cfg plan now id b s).2 ∧
       ∀ a, (onBatch cfg plan now id b s).2.active = some a → ActiveOk cfg E c (onBatch cfg plan now id b s).2 a := by
-  obtain ⟨a1, a2, a3⟩ := acquire_spec (cfg := cfg) (E := E) (c := c) plan now id b s hinv.active
+  obtain ⟨a1, a2, a3⟩ := acquire_spec (cfg := cfg) (E := E) (c := c) (N := N) plan now id b s hN hinv.active
   unfold onBatch
   cases h : acquire cfg plan now id b s with
   | err s1 =>
@@ -792,7 +796,7 @@ theorem onBatch_spec (hsep : SepOk cfg E c) (plan : Nat → Fault) (now : Parts)
       | some a' =>
         simp only
         have hok' := w3 a' rfl
-        have f1 := flushFile_steps (cfg := cfg) (E := E) (c := c) plan s2
+        have f1 := flushFile_steps (cfg := cfg) (E := E) (c := c) (N := N) plan s2
         have f2 := flushFile_active plan w2'
         cases hf : flushFile plan s2 with
         | err s3 =>
@@ -805,7 +809,7 @@ theorem onBatch_spec (hsep : SepOk cfg E c) (plan : Nat → Fault) (now : Parts)
           simp only [hf, R.st] at f1 f2 ⊢
           obtain ⟨g1, g2, _⟩ := flushFile_ok hf
           have hok3 : ActiveOk cfg E c s3 a' := activeOk_of_fs_eq g1 g2 hok'
-          have y1 := syncAll_steps (cfg := cfg) (E := E) (c := c) plan hok3.1 s3
+          have y1 := syncAll_steps (cfg := cfg) (E := E) (c := c) (N := N) plan hok3.1 s3
           have y2 := syncAll_active plan a'.name f2
           cases hy : syncAll plan a'.name s3 with
           | err s4 =>
@@ -826,7 +830,7 @@ theorem onBatch_spec (hsep : SepOk cfg E c) (plan : Nat → Fault) (now : Parts)
 
 theorem onBatch_inv (hsep : SepOk cfg E c) (plan : Nat → Fault) (now : Parts) (id : Nat) (b : Batch) (s : St)
     (hE : ∀ e ∈ b.rest, E e) (hinv : Inv cfg E c s) : Inv cfg E c (onBatch cfg plan now id b s).2 := by
-  obtain ⟨h1, h2⟩ := onBatch_spec hsep plan now id b s hE hinv
+  obtain ⟨h1, h2⟩ := onBatch_spec (N := fun _ => True) hsep plan now id b s trivial hE hinv
   exact ⟨h1.nodup hinv.nodup, h1.goodInv hinv.nodup hinv.good, h2⟩
 
 end
